@@ -80,7 +80,7 @@ NATIVE = {
     'c10n': {'tags': ['C10'], 'enum': 'byte_families::fam_c10', 'check': 'byte_families::run_c10(c)', 'n': 300000, 'family': 'valid idents with 0-3 bytes replaced'},
     'c14n': {'tags': ['C14'], 'enum': 'byte_families::fam_c14', 'check': 'byte_families::run_c14(c)', 'n': 300000, 'family': '1-3 note records (GNU / other names, types 1/3/5, sizes on and off the alignment), alignments 0,1,2,3,4,8,16, truncation, corrupted size words'},
     'c03n': {'tags': ['C03'], 'enum': 'byte_families::fam_c03', 'check': 'byte_families::run_c03(c)', 'n': 50000, 'family': 'section / segment ranges around the boundaries of a 60-byte file and around u64 overflow'},
-    'c13i': {'tags': ['C13', 'C16'], 'enum': 'byte_families::fam_c13i', 'check': 'byte_families::run_c13i(c)', 'n': 300000, 'family': 'structured version sections iterated from several offsets and counts (three records each)'},
+    'c13i': {'tags': ['C13'], 'enum': 'byte_families::fam_c13i', 'check': 'byte_families::run_c13i(c)', 'n': 300000, 'family': 'structured version sections iterated from several offsets and counts (three records each)'},
     'c02n': {'tags': ['C02'], 'enum': 'byte_families::fam_c02', 'check': 'run_c02(c)', 'n': 600000, 'family': 'every ABI structure decoded from buffers <= 80 bytes at offsets 0..8 and past the end, both classes and byte orders, against the layout table'},
     'c16n': {'tags': ['C16'], 'panic_props': ['C01'], 'enum': 'term_oracle::enumerate_term', 'check': 'term_oracle::check_term(c)', 'n': 140000, 'family': 'adversarial link structures of < 300 bytes: SysV chains with cycles / self-loops / out-of-range links, GNU chains without stop bit, VerNeed / VerDef records with next = 0 / overlapping / huge and counts up to u64::MAX, random notes and entry tables; clauses: returns within 3 s, at most one item per byte, at most the declared count'},
     'c19n': {'tags': ['C19'], 'panic_props': [], 'enum': 'c19_gen::enumerate_c19', 'check': 'c19_gen::check_c19(c)', 'n': 3000, 'family': 'every constant of the reference table that elf::abi exports; every to_str function over its whole domain (u8 / u16) or over all constant values, their neighbours and 3000 pseudo-random values (u32 / u64 / i64); the to_string variants against to_str / the fallback text'},
